@@ -64,8 +64,9 @@ let parse_ports s =
 (* Node_Logic AND / OR on 4-state bits (a defined 0 resp. 1 dominates) *)
 let and3 a b = match a, b with B0, _ | _, B0 -> B0 | B1, B1 -> B1 | _ -> BX
 let or3 a b = match a, b with B1, _ | _, B1 -> B1 | B0, B0 -> B0 | _ -> BX
-(* a non-RMW port that writes in the idle cycles while the design is in reset *)
-let writes_in_reset p = (p.kind = 'A' || p.cmode = 'o' || p.cmode = 'r') && p.src < 0
+(* a port that writes (or may write) in the idle cycles while the design is in reset; even a read-modify-write of the
+   idle operand (elem + 0) is not neutral there: a reset-initialised memory is still undefined when the reset begins *)
+let writes_in_reset p = p.kind = 'A' || p.cmode = 'o' || p.cmode = 'r' 
 
 let kvs toks = List.filter_map (fun t -> match String.index_opt t '=' with
     | Some i -> Some (String.sub t 0 i, String.sub t (i + 1) (String.length t - i - 1)) | None -> None) toks
